@@ -263,6 +263,10 @@ def configs(tier, seed):
     # restored searcher does differently shows in the first digits, far above the round-off of the parameter round trip
     add(fam="fifo", searcher="bayesopt", nir=2, W=3, T=7, R=1, p2e=1, ms=0, spine_policies=["N"], h=1, bo=True, id0=9,
         perms={"1": (2, 0, 3, 1, 4, 5, 6)}, so_extra=dict(opt_nstarts=2, opt_maxiter=50, num_init_candidates=250))
+    # one worker (no pending trial when a suggestion is asked for) and an odd number of initial candidates: Thompson scoring
+    # draws an odd number of normal variates per suggestion, so the generator carries a cached Gaussian across suggestions
+    add(fam="fifo", searcher="bayesopt", nir=2, W=1, T=6, R=1, p2e=1, ms=0, spines=2, h=2, bo=True,
+        perms={"1": (2, 0, 3, 1, 4, 5)}, so_extra=dict(num_init_candidates=9))
     if not q:
         add(fam="fifo", searcher="bayesopt", nir=2, W=2, T=6, R=1, p2e=0, ms=0, spines=2, h=2, bo=True,
             perms={"1": (2, 0, 3, 1, 4, 5)}, opt_skip_init_length=1, opt_skip_period=2)
